@@ -94,24 +94,6 @@ impl core::ops::Mul<Felt> for Felt {
     #[verifier::external_body]
     fn mul(self, rhs: Felt) -> (r: Felt) { unimplemented!() }
 }
-impl MulAssignSpecImpl<Felt> for Felt {
-    open spec fn obeys_mul_assign_spec() -> bool { true }
-    open spec fn mul_assign_req(&self, rhs: Felt) -> bool { true }
-    open spec fn mul_assign_spec(&self, rhs: Felt) -> Felt { felt_of(fmul(self.val(), rhs.val())) }
-}
-impl core::ops::MulAssign<Felt> for Felt {
-    #[verifier::external_body]
-    fn mul_assign(&mut self, rhs: Felt) { unimplemented!() }
-}
-impl AddAssignSpecImpl<Felt> for Felt {
-    open spec fn obeys_add_assign_spec() -> bool { true }
-    open spec fn add_assign_req(&self, rhs: Felt) -> bool { true }
-    open spec fn add_assign_spec(&self, rhs: Felt) -> Felt { felt_of(fadd(self.val(), rhs.val())) }
-}
-impl core::ops::AddAssign<Felt> for Felt {
-    #[verifier::external_body]
-    fn add_assign(&mut self, rhs: Felt) { unimplemented!() }
-}
 impl NegSpecImpl for Felt {
     open spec fn obeys_neg_spec() -> bool { true }
     open spec fn neg_req(self) -> bool { true }
